@@ -1,3 +1,4 @@
+use std::collections::HashMap;
 use std::env;
 use std::ffi::{CStr, CString};
 use std::fs::File;
@@ -509,13 +510,16 @@ fn run_single_program(
             // our strings do not have '\x00' bytes in them,
             // we can use CString::new().expect() safely.
             // a `NAME=v cmd` prefix replaces an exported NAME for this command
+            // -- the command it stands in front of, not the later stages
+            let no_prefix = HashMap::new();
+            let prefix = if idx_cmd == 0 { &cl.envs } else { &no_prefix };
             let mut c_envs: Vec<_> = env::vars()
-                .filter(|(k, _)| !cl.envs.contains_key(k))
+                .filter(|(k, _)| !prefix.contains_key(k))
                 .map(|(k, v)| {
                     CString::new(format!("{}={}", k, v).as_str()).expect("CString error")
                 })
                 .collect();
-            for (key, value) in cl.envs.iter() {
+            for (key, value) in prefix.iter() {
                 c_envs.push(
                     CString::new(format!("{}={}", key, value).as_str()).expect("CString error"),
                 );
